@@ -17,13 +17,18 @@ fn handle(line: &str) -> String {
     let mut parts: Vec<&str> = line.split_whitespace().collect();
     // `seq@K` / `wf@K`: the same operation with every client read limited to K bytes
     let mut max_read = 0usize;
+    let mut read_pause = 0usize;
     if let Some(first) = parts.first().copied() {
         if let Some((op, k)) = first.split_once('@') {
+            // `seq@K@D`: additionally D virtual seconds pass before every piece the client reads (a packet that trickles in)
+            let (k, d) = k.split_once('@').unwrap_or((k, "0"));
             max_read = k.parse().unwrap_or(0);
+            read_pause = d.parse().unwrap_or(0);
             parts[0] = op;
         }
     }
     seq::MAX_READ.store(max_read, std::sync::atomic::Ordering::Relaxed);
+    seq::READ_PAUSE.store(read_pause, std::sync::atomic::Ordering::Relaxed);
     // `dec@1` / `parse@1`: the same decoder call with logging switched off (time / allocation probes on very large inputs
     // measure the decoder, not the Debug formatting of the whole remaining input in its log records)
     let quiet = max_read > 0 && matches!(parts.first().copied(), Some("dec") | Some("parse"));
